@@ -61,12 +61,29 @@ func VerifC04() {
 	m := &verifModel{}
 	var snap []byte
 	var err error
+	// earlysnap=1: the same partition object was snapshotted before (its log is compacted
+	// every so many entries): the snapshot at `cut` must describe the state at `cut`
+	// whatever was snapshotted earlier
+	early := -1
+	if verifrt.Bound("earlysnap", 0) == 1 && cut > 0 {
+		early = verifrt.IntIn("early-snapshot", -1, cut-1)
+	}
+	if early == 0 {
+		_, eerr := A.snapshot()
+		verifrt.Assert(eerr == nil, "snapshot-succeeds")
+		verifrt.Tag("snapshotted-before")
+	}
 	if cut == 0 {
 		snap, err = A.snapshot()
 		verifrt.Assert(err == nil, "snapshot-succeeds")
 	}
 	for step := 0; step < L; step++ {
 		verifStep(A, m, dim, nIds, grid, step, kinds)
+		if step+1 == early {
+			_, eerr := A.snapshot()
+			verifrt.Assert(eerr == nil, "snapshot-succeeds")
+			verifrt.Tag("snapshotted-before")
+		}
 		if step+1 == cut {
 			snap, err = A.snapshot()
 			verifrt.Assert(err == nil, "snapshot-succeeds")
